@@ -16,7 +16,9 @@ RULE = ("op sequences (gramit / serviceTxGrams / serviceTxGramsOnce / close+open
         "over a fake socket whose sendto follows a script of kernel results: accept n bytes (0..len and beyond), accept "
         "all, or raise OSError with one of 19 errnos (4 would-block, 10 unreachable, 5 unexpected); grams are queued as "
         "bytes, bytearray or memoryview objects and the SAME object is often queued several times to different "
-        "destinations (fan-out), the application's objects must stay unchanged; a case is "
+        "destinations (fan-out), the application's objects must stay unchanged; in 30% of the cases the application owns "
+        "the queue: a deque (empty or pre-filled) and a .txbs remainder are handed to the constructor and the deque is filled by "
+        "the application afterwards; a case is "
         "non-trivial when >= 2 grams were queued and some send accepted nothing or only part of a gram")
 MODELLED = ["socket.sendto (scripted results: count / OSError(errno))",
             "collections.deque / bytearray slicing (as list operations)",
@@ -80,6 +82,15 @@ def directed():
          "script": [["err", e] for e in WOULD_BLOCK] + [["acc", 1]] * 3},
         # nothing queued
         {"transport": "udp", "ops": [["svc"], ["once"]], "script": []},
+        # the application owns the queue: an EMPTY deque handed to the constructor and filled afterwards
+        {"transport": "udp", "own": {"append": True}, "ops": [_g(A, 1), _g(B, 2), ["svc"], _g(C, 1), ["once"], ["svc"]], "script": [["acc", 2]]},
+        {"transport": "uxd", "own": {"append": True}, "ops": [_g(A, 1), _g(B, 2), _g(C, 3), _g(A, 2)] + [["svc"]] * 3, "script": [["acc", 0]]},
+        # ... handed over empty, then filled through gramit
+        {"transport": "udp", "own": {}, "ops": [_g(A, 1), _g(B, 2), ["svc"], ["svc"]], "script": [["acc", 1]]},
+        # ... pre-filled, with a remainder in .txbs, more appended later
+        {"transport": "uxd", "own": {"prefill": [[A.encode().hex(), 1], [B.encode().hex(), 2]], "txbs0": [C.encode().hex(), 3], "append": True},
+         "ops": [["svc"], _g(C, 1), ["svc"], ["svc"]], "script": [["acc", 1], ["acc", 0]]},
+        {"transport": "udp", "own": {"prefill": [[A.encode().hex(), 1]]}, "ops": [["once"], _g(B, 2), ["once"], ["once"]], "script": []},
     ]
     return out
 
@@ -142,7 +153,14 @@ def generate(rng, tier):
             script = [x for x in script if not (x[0] == "err" and x[1] in OTHER)]
         # drain so that completion is observable: the script is finite, afterwards everything is accepted
         ops += [["svc"]] * (len(script) + 1) if rng.random() < 0.7 else []
-        out.append({"transport": rng.choice(["udp", "uxd"]), "ops": ops, "script": script})
+        c = {"transport": rng.choice(["udp", "uxd"]), "ops": ops, "script": script}
+        if rng.random() < 0.3:      # application-owned queue objects handed to the constructor
+            c["own"] = {"append": rng.random() < 0.6}
+            if rng.random() < 0.5:
+                c["own"]["prefill"] = [[bytes([97 + j] * rng.randint(1, gl)).hex(), rng.randint(1, 3)] for j in range(rng.randint(1, 3))]
+            if rng.random() < 0.3:
+                c["own"]["txbs0"] = [bytes([48] * rng.randint(1, gl)).hex(), rng.randint(1, 3)]
+        out.append(c)
     return out
 
 
@@ -177,13 +195,13 @@ def _undst(dst):
     return int(dst[0].rsplit(".", 1)[1]) if isinstance(dst, tuple) else int(dst.rsplit("d", 1)[1])
 
 
-def _make(transport, script):
+def _make(transport, script, **kwa):
     if transport == "udp":
         from hio.core.udp.peermemoing import PeerMemoer
-        m = PeerMemoer(name="c21")
+        m = PeerMemoer(name="c21", **kwa)
     else:
         from hio.core.uxd.peermemoing import PeerMemoer
-        m = PeerMemoer(name="c21", reopen=False)
+        m = PeerMemoer(name="c21", reopen=False, **kwa)
     m.ls = _FakeSock(script)
     m.opened = True
     return m
@@ -194,7 +212,15 @@ def run_impl(case):
     logging.disable(logging.CRITICAL)
     from harness.core import exn_kind
     t = case["transport"]
-    m = _make(t, case["script"])
+    own = case.get("own")          # the application owns the queue objects and hands them to the constructor
+    kwa, q = {}, None
+    if own:
+        from collections import deque
+        q = deque((bytes.fromhex(h), _dst(t, d)) for h, d in own.get("prefill", []))
+        kwa["txgs"] = q
+        if own.get("txbs0"):
+            kwa["txbs"] = (bytearray(bytes.fromhex(own["txbs0"][0])), _dst(t, own["txbs0"][1]))
+    m = _make(t, case["script"], **kwa)
     excs, left = [], []
     objs = {}              # application objects: number -> (object, original content)
     for op in case["ops"]:
@@ -206,9 +232,13 @@ def run_impl(case):
                     if op[3] not in objs:
                         o = {"bytes": data, "bytearray": bytearray(data), "memoryview": memoryview(bytearray(data))}[op[4]]
                         objs[op[3]] = (o, data)
-                    m.gramit(objs[op[3]][0], _dst(t, op[2]))
+                    payload = objs[op[3]][0]
                 else:
-                    m.gramit(data, _dst(t, op[2]))
+                    payload = data
+                if own and own.get("append"):
+                    q.append((payload, _dst(t, op[2])))        # the application fills ITS queue object
+                else:
+                    m.gramit(payload, _dst(t, op[2]))
             elif op[0] == "svc":
                 m.serviceTxGrams()
             elif op[0] == "once":
@@ -237,7 +267,7 @@ def run_impl(case):
              "offered": [[_undst(d), h] for d, h, r in m.ls.log],
              "txgs_left": [[bytes(g).hex(), _undst(d)] for g, d in m.txgs],
              "txbs_left": [bytes(m.txbs[0]).hex(), _undst(m.txbs[1])]}
-    return {"excs": excs, "drain": drain,
+    return {"excs": excs, "drain": drain, "queue_adopted": (q is None or m.txgs is q),
             "objs_changed": sorted(k for k, (o, orig) in objs.items() if bytes(o) != orig),
             "log": log,
             "script_left_before": left,
@@ -281,6 +311,8 @@ def oracle(case, obs):
     """Every queued gram is offered to the transport in full, in queue order, each byte accepted exactly once;
     a gram is abandoned only after an unreachable error; nothing raises; once the transport accepts again a
     final serviceTxGrams drains everything.  (Fault sequences with unexpected errnos are outside the property.)"""
+    if not obs.get("queue_adopted", True):
+        return "the queue object handed to the constructor is not the one the Memoer services: grams the application puts on it are never sent"
     w = _eventually_delivered(obs)
     if w or not _in_scope(case):
         return w
@@ -288,7 +320,10 @@ def oracle(case, obs):
         return f"exception escaped although the transport only blocked or reported unreachable: {obs['excs']}"
     if obs.get("objs_changed"):
         return f"the application's own gram objects {obs['objs_changed']} were modified by transmit servicing"
-    queued = [(bytes.fromhex(o[1]), o[2]) for o in case["ops"] if o[0] == "gram"]
+    own = case.get("own") or {}
+    queued = ([(bytes.fromhex(own["txbs0"][0]), own["txbs0"][1])] if own.get("txbs0") else []) + \
+             [(bytes.fromhex(h), d) for h, d in own.get("prefill", [])] + \
+             [(bytes.fromhex(o[1]), o[2]) for o in case["ops"] if o[0] == "gram"]
     i, off = 0, 0
     for n, (d, h, r) in enumerate(obs["log"]):
         offered = bytes.fromhex(h)
@@ -381,9 +416,14 @@ def to_coq(case, obs):
     acc = [f"({coq_N(d)}, {coq_bytes(bytes.fromhex(h))})" for d, h in _accepted(obs)]
     txgs = [f"({coq_bytes(bytes.fromhex(g))}, {coq_N(d)})" for g, d in obs["txgs"]]
     txbs = f"({coq_bytes(bytes.fromhex(obs['txbs'][0]))}, {coq_option(obs['txbs'][1], coq_N, 'N')})"
-    return ("{| MemoTx.c_ops := %s; MemoTx.c_script := %s; MemoTx.c_excs := %s; MemoTx.c_accepted := %s; "
+    own = case.get("own") or {}
+    pre = [f"(MemoTx.Gramit {coq_bytes(bytes.fromhex(h))} {coq_N(d)})" for h, d in own.get("prefill", [])]
+    t0 = own.get("txbs0")
+    txbs0 = f"({coq_bytes(bytes.fromhex(t0[0]))}, (Some {coq_N(t0[1])}))" if t0 else "((@nil N), (@None N))"
+    return ("{| MemoTx.c_txbs0 := %s; MemoTx.c_ops := %s; MemoTx.c_script := %s; MemoTx.c_excs := %s; MemoTx.c_accepted := %s; "
             "MemoTx.c_txgs := %s; MemoTx.c_txbs := %s |}" % (
-                coq_list([_op(o) for o in case["ops"]], "MemoTx.op"),
+                txbs0,
+                coq_list(pre + [_op(o) for o in case["ops"]], "MemoTx.op"),
                 coq_list([_k(x) for x in case["script"]], "MemoTx.kres"),
-                coq_list([exc(e) for e in obs["excs"]], "option exn"),
+                coq_list([exc(None) for _ in pre] + [exc(e) for e in obs["excs"]], "option exn"),
                 coq_list(acc, "N * bytes"), coq_list(txgs, "bytes * N"), txbs))
